@@ -455,8 +455,16 @@ class SpecGen:
                     return f'SUMIF({txt},">"&{key})', prec + pk, dk
                 return f'COUNTIF({txt},{key})', prec + pk, dk
             if form in ('SUMIF3', 'SUMIF1'):
-                return f'SUMIF({txt},{crit},{txt if form == "SUMIF3" else self.ref_text(prec[0])})', \
-                    prec, []
+                if form == 'SUMIF1':
+                    # Excel's shorthand: the range to add up named by its first cell - a cell
+                    # beside the criteria range where there is one
+                    s0, c0 = split_addr(prec[0])
+                    r0, k0 = coord_rc(c0)
+                    beside = [a for a in (mk(s0, r0, k0 + 1), mk(s0, r0, k0 + 2), mk(s0, r0 + 1, k0))
+                              if a in self.by_addr and a not in prec]
+                    first = beside[0] if beside else prec[0]
+                    return f'SUMIF({txt},{crit},{self.ref_text(first)})', uniq(prec + [first]), []
+                return f'SUMIF({txt},{crit},{txt})', prec, []
             if form == 'SPCMP':
                 op = rnd.choice(('=', '>', '<>', '>='))
                 return f'SUMPRODUCT(({txt}{op}{key})*1)', prec + pk, dk
@@ -1084,6 +1092,37 @@ def add_branch_gadget(rnd, spec):
         out.append(a)
     spec.setdefault('gadget', []).extend(out)
     spec['branch_gadget'] = {'outputs': out, 'switch': sw}
+
+
+def add_compare_gadget(rnd, spec):
+    """operators applied to a whole range whose cells hold numbers and logicals that are equal
+    in Python and not in Excel (1 / TRUE, 0 / FALSE); rows 70-72 of the first formula sheet"""
+    sheet = next(s_ for s_ in spec['sheets'] if s_ != spec.get('data_sheet'))
+    cells = spec['cells']
+    pool = [1, True, 0, False, 2]
+    col = [mk(sheet, 70 + i, 1) for i in range(3)]
+    for a, v in zip(col, rnd.sample((1, 2, 0, True, 3), 3)):
+        cells.append({'a': a, 'v': v, 'w': pool})
+    key = mk(sheet, 70, 2)
+    cells.append({'a': key, 'v': rnd.choice((1, True, 0)), 'w': [1, True, 0, False]})
+    out = []
+    forms = [('=SUMPRODUCT((A70:A72=B70)*1)', col + [key]), ('=SUMPRODUCT(LEN(A70:A72&""))', col),
+             ('=COUNTIF(A70:A72,B70)', col + [key]), ('=SUMPRODUCT((A70:A72>0)*1)', col),
+             ('=SUMPRODUCT((A70:A72<>B70)*A70:A72)', col + [key])]
+    rnd.shuffle(forms)
+    for i, (f, p) in enumerate(forms[:3]):
+        a = mk(sheet, 70, 3 + i)
+        cells.append({'a': a, 'f': f, 'p': list(p), 'd': []})
+        out.append(a)
+    ref = f'{sheet}!G70:G72'
+    f = rnd.choice(('=A70:A72=B70', '=A70:A72&""', '=A70:A72>=B70'))
+    for i in range(3):
+        cells.append({'a': mk(sheet, 70 + i, 7), 'cse': ref, 'f': f,
+                      'p': col + ([key] if 'B70' in f else []), 'd': []})
+    cells.append({'a': mk(sheet, 70, 8), 'f': '=SUMPRODUCT(G70:G72*1)' if '&' not in f else
+                  '=G70&G71&G72', 'p': [mk(sheet, 70 + i, 7) for i in range(3)], 'd': []})
+    out += [mk(sheet, 71, 7), mk(sheet, 70, 8)]
+    spec.setdefault('gadget', []).extend(out)
 
 
 def add_long_chain_gadget(rnd, spec):
